@@ -411,6 +411,36 @@ def check_case(case, ctx):
         if bad:
             ctx.violation('positions-most-confident-frame', f'{K}/align_text/{kind}',
                           f'align_text -> {pos}, alignment {seq}: {bad} (labels {labels}, blank {blank}, costs {M})', sub)
+            continue
+        # ---- the caller keeps ONE cost buffer: it is aligned, refilled in place with the costs of another line (the frames in reverse order),
+        #      and aligned again - the second answer is that of the buffer as it is now
+        if dt == 'f64' and T >= 2 and M[::-1] != M:
+            M2 = M[::-1]
+            b2 = brute(M2, blank)
+            if key in b2 and b2[key] < INF:
+                buf = A.copy()
+                try:
+                    align_text(buf, np.asarray(labels), blank)
+                    force_align(buf, list(labels), blank)
+                    buf[...] = np.asarray(M2, dtype=buf.dtype)
+                    p2 = [int(x) for x in align_text(buf, np.asarray(labels), blank)]
+                    g2 = [int(x) for x in force_align(buf, list(labels), blank)]
+                    f2 = [int(x) for x in align_text(np.asarray(M2, dtype=np.float64), np.asarray(labels), blank)]
+                except ValueError as e:
+                    p2 = g2 = f2 = None
+                    err2 = e
+                ctx.executed(5)
+                if p2 is None:
+                    ctx.violation('failure-iff-no-alignment', f'{K}/force_align/false-failure/cost-buffer-refilled-in-place',
+                                  f'costs {M} aligned, the same array refilled in place with {M2} and aligned again: ValueError({err2}) although an alignment of labels {labels} exists', sub)
+                    continue
+                c2 = sum(M2[t][s_] for t, s_ in enumerate(g2)) if len(g2) == T else None
+                if c2 is None or collapse(g2, blank) != key or not (nabs(c2 - b2[key]) <= 1e-9) or p2 != f2:
+                    ctx.violation('minimum-cost', f'{K}/cost-buffer-refilled-in-place-and-aligned-again',
+                                  f'costs {M} aligned (labels {labels}, blank {blank}), the same array refilled in place with {M2} and aligned again: force_align -> {g2} '
+                                  f'(cost {c2}, minimum {b2[key]}), align_text -> {p2}; on a fresh array align_text -> {f2}', sub)
+                    continue
+                ctx.tag('cost-buffer-refilled-in-place')
 
 
 def check_wide(case, ctx, M3):
@@ -481,6 +511,6 @@ def describe(tier):
                         'ties: any minimum-cost alignment and any most-confident frame is accepted',
                         'per-frame confidence = max over symbols of the frame (as stated: "where the network is most confident")'],
         'min_nontrivial': 100,
-        'required_tags': ['fault-points', 'failure-reported', 'more-than-255-frames', 'unusual-cost-magnitudes', 'repeated-label-aligned', 'multi-frame-char-with-distinct-confidences', 'only-infinite-alignments',
+        'required_tags': ['cost-buffer-refilled-in-place', 'fault-points', 'failure-reported', 'more-than-255-frames', 'unusual-cost-magnitudes', 'repeated-label-aligned', 'multi-frame-char-with-distinct-confidences', 'only-infinite-alignments',
                           'non-float64-cost-matrices', 'wide-alphabet-small-int-labels'],
     }
